@@ -86,7 +86,7 @@ func (propC03) Gen(r *Rng, run uint64, tier string) *Plan {
 	switch {
 	case len(l.Data) == 0:
 		p.Config = "faultfree"
-	case len(l.Data) < 600 && r.Bool(0.6):
+	case len(l.Data) < map[string]int{"quick": 600, "thorough": 3000}[tier] && r.Bool(0.6):
 		p.Tags["sweep"] = []string{"cut", "read_error"}[r.Intn(2)]
 	case len(l.Ends) > 0 && r.Bool(0.25):
 		p.Tags["sweep"] = "frame"
